@@ -350,6 +350,8 @@ class RGen:
                 cands += ["verify"] * 2
             if b == U and depth >= 2 and rng.below(100) < o["twice"]:
                 cands += ["twice"] * 3
+            if b == U and depth >= 2 and rng.below(100) < o.get("ntimes", 25):
+                cands += ["ntimes"] * 3
         if rng.below(100) < o["witness"]:
             cands += ["wit"] * 2
         if a == U and pg.as_word(b) is not None and rng.below(100) < o["word"]:
@@ -420,6 +422,31 @@ class RGen:
             p2 = self.add(("comp", g, cn))
             pr = self.add(("pair", p1, p2))
             return self.add(("comp", pr, self.add(("unit",))), key)
+        if c == "ntimes":
+            # one case node object run 3 or 4 times in one execution with a CHOSEN sequence of sides
+            # (every pattern of L/R, e.g. L,R,R): comp (pair (comp f1 c) (pair (comp f2 c) ...)) unit
+            # with f_i = pair (injl|injr <x_i>) <z_i>
+            n = rng.choice([3, 3, 4])
+            sides = [rng.below(2) for _ in range(n)]
+            xs, ys = rng.choice([(U, U), (BIT, U), (U, pg.word(1)), (pg.word(3), pg.word(3)), (BIT, BIT)])
+            z = rng.choice([U, BIT, pg.word(3)])
+            t = rng.choice([U, BIT, pg.word(3), pg.S(U, BIT)])
+            m = pg.P(pg.S(xs, ys), z)
+            cl = self.gen(pg.P(xs, z), t, d - 1)
+            cr = self.gen(pg.P(ys, z), t, d - 1)
+            cn = self.add(("case", cl, cr), (m, t))
+            runs = []
+            for sd in sides:
+                if sd:
+                    inj = self.add(("injr", self.gen(a, ys, max(d - 2, 0))))
+                else:
+                    inj = self.add(("injl", self.gen(a, xs, max(d - 2, 0))))
+                f = self.add(("pair", inj, self.gen(a, z, max(d - 2, 0))))
+                runs.append(self.add(("comp", f, cn)))
+            acc = runs[-1]
+            for r_ in reversed(runs[:-1]):
+                acc = self.add(("pair", r_, acc))
+            return self.add(("comp", acc, self.add(("unit",))), key)
         if c == "verify":
             x = self.gen(a, BIT, d)
             return self.add(("comp", x, self.add(("jet", "e", "verify"))), key)
